@@ -292,3 +292,98 @@ func VerifKFIPFIXShortRecords() {
 	verifAssert(len(msg.DataSets) == 2, "short records: exactly one entry per data record")
 	verifReach("end")
 }
+
+// (C04) re-announcement in general: definition A of a template id is followed by definition B
+// of the same id by the same exporter, in the same message or in a later datagram. Both have two
+// unsigned32 fields (options template: the first is a scope field; plain template: both are
+// ordinary fields). B's first and second field are, independently, the same element as in A or
+// another one — so B may differ from A in the scope field only, in the other field only, in
+// both, or not at all. The record that follows must carry B's element ids, whatever B changed.
+func VerifIPFIXReannounceAny() {
+	InfoModel = IANAInfoModel{}
+	tid := verifNondetU16()
+	verifAssume(tid > 255)
+	a1, a2 := verifArbField(Uint32, 0), verifArbField(Uint32, 0)
+	n1, n2 := verifArbField(Uint32, 0), verifArbField(Uint32, 0)
+	verifAssume(verifAll(a1.spec.EnterpriseNo == 0, a2.spec.EnterpriseNo == 0, n1.spec.EnterpriseNo == 0, n2.spec.EnterpriseNo == 0))
+	b1, b2 := a1, a2
+	if verifCase(2) == 1 {
+		b1 = n1
+	}
+	if verifCase(2) == 1 {
+		b2 = n2
+	}
+	opts := verifCase(2) == 1
+	two := verifCase(2) == 1
+	tset := func(w *verifW, f1, f2 verifField) {
+		if opts {
+			w.u16(3)
+			w.u16(4 + 6 + 8)
+			w.u16(tid)
+			w.u16(2)
+			w.u16(1)
+		} else {
+			w.u16(2)
+			w.u16(4 + 4 + 8)
+			w.u16(tid)
+			w.u16(2)
+		}
+		w.u16(f1.spec.ElementID)
+		w.u16(4)
+		w.u16(f2.spec.ElementID)
+		w.u16(4)
+	}
+	tl := 4 + 4 + 8
+	if opts {
+		tl = 4 + 6 + 8
+	}
+	v1, v2 := verifNondetU32(), verifNondetU32()
+	addr := net.IP{192, 0, 2, 9}
+	shardNo = 2
+	m := verifNewCache()
+	var msg *Message
+	var err error
+	if two {
+		w1 := &verifW{b: make([]byte, 16+tl)}
+		verifWriteHeader(w1, 16+tl)
+		tset(w1, a1, a2)
+		_, err1 := NewDecoder(addr, w1.b).Decode(m)
+		verifAssert(err1 == nil, "first announcement decodes")
+		w2 := &verifW{b: make([]byte, 16+tl+12)}
+		verifWriteHeader(w2, 16+tl+12)
+		tset(w2, b1, b2)
+		w2.u16(tid)
+		w2.u16(12)
+		w2.u32(v1)
+		w2.u32(v2)
+		msg, err = NewDecoder(addr, w2.b).Decode(m)
+	} else {
+		w := &verifW{b: make([]byte, 16+2*tl+12)}
+		verifWriteHeader(w, 16+2*tl+12)
+		tset(w, a1, a2)
+		tset(w, b1, b2)
+		w.u16(tid)
+		w.u16(12)
+		w.u32(v1)
+		w.u32(v2)
+		msg, err = NewDecoder(addr, w.b).Decode(m)
+	}
+	verifAssert(verifAll(err == nil, msg != nil), "message with a re-announced template decodes")
+	verifAssert(len(msg.DataSets) == 1, "one record")
+	fs := msg.DataSets[0]
+	verifAssert(len(fs) == 2, "record has one entry per template field")
+	verifAssert(verifAll(fs[0].ID == b1.entry.FieldID, fs[1].ID == b2.entry.FieldID), "the record is decoded with the LATEST definition of the template (element ids)")
+	x1, ok1 := fs[0].Value.(uint32)
+	x2, ok2 := fs[1].Value.(uint32)
+	verifAssert(verifAll(ok1, ok2, x1 == v1, x2 == v2), "the record's values")
+	got, ok := m.retrieve(tid, addr)
+	verifAssert(ok, "the template is in the cache")
+	if opts {
+		verifAssert(verifAll(len(got.ScopeFieldSpecifiers) == 1, len(got.FieldSpecifiers) == 1), "cached options template: one scope field, one field")
+		verifAssert(verifAll(got.ScopeFieldSpecifiers[0].ElementID == b1.spec.ElementID, got.FieldSpecifiers[0].ElementID == b2.spec.ElementID), "the cache holds the latest definition")
+	} else {
+		verifAssert(len(got.FieldSpecifiers) == 2, "cached template: two fields")
+		verifAssert(verifAll(got.FieldSpecifiers[0].ElementID == b1.spec.ElementID, got.FieldSpecifiers[1].ElementID == b2.spec.ElementID), "the cache holds the latest definition")
+	}
+	verifReach("end")
+}
